@@ -129,7 +129,13 @@ func (w *World) deliverPub(ctx context.Context, q int, m *Msg) {
 // deliverDC hands a direct-channel payload to q's instance and waits until it has been handled
 // (a second, empty-heads payload for the same address acts as a barrier).
 func (w *World) deliverDC(ctx context.Context, q int, from int, payload []byte) {
-	if w.stores[q] == nil {
+	w.deliverDCTo(ctx, q, from, payload, false)
+}
+
+// deliverDCTo: with `late` the payload is handed to q's instance although q has no store open for the
+// current database any more (the sender cannot know that the store was closed a moment ago)
+func (w *World) deliverDCTo(ctx context.Context, q int, from int, payload []byte, late bool) {
+	if w.stores[q] == nil && !late {
 		w.printf("delivered %d nosub\n", q)
 		return
 	}
@@ -161,10 +167,25 @@ func (w *World) deliverDC(ctx context.Context, q int, from int, payload []byte) 
 		w.printf("delivered %d quiesce=false unserved\n", q)
 		return
 	}
+	// the barrier is a (headless) message for a database q HAS open: a message for a database without a
+	// store is dropped before the instance reports having handled it
+	barrierAddr := w.dbAddr
+	if late {
+		barrierAddr = ""
+		for _, d := range w.dbs {
+			if st := d.stores[q]; st != nil && (d.closed == nil || !d.closed[q]) {
+				barrierAddr = d.addr
+			}
+		}
+		if barrierAddr == "" {
+			w.printf("delivered %d nosub\n", q)
+			return
+		}
+	}
 	emitted := make(chan struct{})
 	go func() {
 		_ = em.Emit(&iface.EventPubSubPayload{Payload: payload, Peer: w.net.ids[from]})
-		_ = em.Emit(&iface.EventPubSubPayload{Payload: barrierPayload(w.dbAddr), Peer: barrierID})
+		_ = em.Emit(&iface.EventPubSubPayload{Payload: barrierPayload(barrierAddr), Peer: barrierID})
 		close(emitted)
 	}()
 	ok := false
@@ -264,6 +285,21 @@ func (w *World) execNetOp(ctx context.Context, toks []string) (bool, error) {
 		if len(toks) > 3 && toks[3] == "dup" {
 			w.deliverDC(ctx, q, p, m.Payload)
 		}
+	case "dclate":
+		// dclate p q : q's heads for the current database reach p's instance over the direct channel
+		// after p closed its store of that database
+		p, q := atoi(toks[1]), atoi(toks[2])
+		sq := w.stores[q]
+		if sq == nil {
+			w.printf("delivered %d nosub\n", p)
+			return true, nil
+		}
+		msg := &iface.MessageExchangeHeads{Address: w.dbAddr}
+		for _, h := range sq.OpLog().Heads().Slice() {
+			msg.Heads = append(msg.Heads, asEntry(h))
+		}
+		payload, _ := json.Marshal(msg)
+		w.deliverDCTo(ctx, p, q, payload, true)
 	case "final":
 		w.printf("final\n")
 	case "cut", "heal":
